@@ -165,6 +165,12 @@ func runOne(id, tier, repo, verif string) (status int) {
 						}
 						fmt.Printf("NOTE: %s passes after inlining new helpers %v\n", id, ir.Inlined)
 						c, w = c2, w2
+					} else if n2, n1 := c2.countAlarms(), c.countAlarms(); n2 > 0 && n2 < n1 && len(c2.fatal) == 0 {
+						// neither passes: the normalised copy usually pinpoints the cause better than the lost-anchor reports
+						c2.Extra["normalised"] = map[string]interface{}{"inlined": ir.Inlined,
+							"result": fmt.Sprintf("the check fails on the sources as written (%d alarms) and on the copy with new helpers inlined (%d alarms); the alarms below are those of the copy, whose positions point into the real files", n1, n2)}
+						fmt.Printf("NOTE: %s fails also after inlining new helpers %v; reporting the alarms of the normalised copy\n", id, ir.Inlined)
+						c, w = c2, w2
 					} else {
 						resetGlobals()
 						c.Extra["normalised"] = map[string]interface{}{"attempted": ir.Inlined, "result": "the copy with new helpers inlined does not pass either; reporting the result on the sources as written"}
